@@ -23,6 +23,12 @@ Definition cf_chainB (a0 b0 k1 k2 : Q) : closed_form :=
   let g := a0 * k1 / (k2 - k1) in
   {| cf_c0 := 0; cf_c1 := 0; cf_c2 := 0; cf_terms := [(b0 - g, k2); (g, k1)] |}.
 
+(* rate k0*M0 + k1*M with M0 the user-defined initial amount m0 (a constant) and m the amount at the start:
+   M' = -(k0 m0 + k1 M), M(0) = m *)
+Definition cf_m0dep (m0 m k0 k1 : Q) : closed_form :=
+  let c := k0 * m0 / k1 in
+  {| cf_c0 := - c; cf_c1 := 0; cf_c2 := 0; cf_terms := [(m + c, k1)] |}.
+
 Local Open Scope R_scope.
 
 Ltac q2r := repeat (rewrite ?Q2R_plus, ?Q2R_minus, ?Q2R_mult, ?Q2R_opp, ?RMicromega.Q2R_0).
@@ -95,4 +101,18 @@ Proof.
     replace (Q2R k1 * A t - Q2R k2 * B t) with (cf_R (cf_deriv (cf_chainB a0 b0 k1 k2)) t); [exact D|].
     subst A B. unfold cf_R, cf_deriv, cf_chainB, cf_first. simpl. q2r. rewrite !Q2R_div by exact Hs. q2r. field. exact HsR.
   - subst B. unfold cf_R, cf_chainB. simpl. rewrite !exp_at_0. q2r. rewrite !Q2R_div by exact Hs. q2r. field. exact HsR.
+Qed.
+
+Theorem m0dep_solves : forall m0 m k0 k1 t, ~ (k1 == 0)%Q ->
+  let M := cf_R (cf_m0dep m0 m k0 k1) in
+  derivable_pt_lim M t (- (Q2R k0 * Q2R m0 + Q2R k1 * M t)) /\ M 0 = Q2R m.
+Proof.
+  intros m0 m k0 k1 t Hk M.
+  assert (HkR : Q2R k1 <> 0).
+  { intro H. apply Hk. apply eqR_Qeq. q2r. exact H. }
+  split.
+  - pose proof (cf_R_derivable (cf_m0dep m0 m k0 k1) t) as D.
+    replace (- (Q2R k0 * Q2R m0 + Q2R k1 * M t)) with (cf_R (cf_deriv (cf_m0dep m0 m k0 k1)) t); [exact D|].
+    subst M. unfold cf_R, cf_deriv, cf_m0dep. simpl. q2r. rewrite !Q2R_div by exact Hk. q2r. field. exact HkR.
+  - subst M. unfold cf_R, cf_m0dep. simpl. rewrite exp_at_0. q2r. rewrite !Q2R_div by exact Hk. q2r. field. exact HkR.
 Qed.
